@@ -38,7 +38,7 @@ CLAIMED = {
        'endings, re-parsing the output is a fixed point; encode_7bit without encoder refuses exactly 8-bit bodies. CPython\'s email package '
        '(field parsing/regeneration, copy, pickle, base64/quoted-printable encoders, behaviour on arbitrary bytes) is modelled only on the '
        'well-formed domain and exercised, not proved: the campaign compares real Envelope parse/flatten/copy/pickle/re-parse/encode_7bit with the '
-       'model and with the generator\'s own field list.',
+       'model and with the generator\'s own field list (header blocks without a blank line and bodies with DEL included).',
   ref='6/C20', technique='Lean 4 proof (regex-boundary lemma by induction over header lines) + differential correspondence vs real Envelope',
   note='Partial: the email package is trusted on the well-formed domain (validated by the campaign), not verified.'),
  'C16': dict(
@@ -240,7 +240,7 @@ CLAIMED = {
        'byte strings in the same order; the reply code the HTTP edge writes into X-Smtp-Reply is the code the relay reads, whatever the reply text and command are (http_reply_code_preserved; header building as wsgiref does it, quoting included). End to end over SMTP (hop_delivers, session_delivers, session_delivers_any_segmentation): for every clean UTF-8 sender, every non-empty list of such recipients, every message cut into parts at line boundaries and within the SIZE limit, any number of messages on one connection and any segmentation of the bytes, the server\'s handlers see exactly that sender, those recipients in order and the CRLF-terminated message, each command is answered 250 / 354, and the session continues between transactions with exactly the bytes that followed (uses C05\'s reader theorem and C09\'s segmentation theorem). Tied to the code by real hops: StaticSmtpRelay -> '
        'socketpair -> SmtpEdge, HttpRelay -> loopback pywsgi -> WsgiEdge, StaticLmtpRelay -> recording LMTP peer, over generated envelopes (null '
        'sender, quoted / escaped / UTF-8 local parts, 1..20 recipients, C20 contents) x server configurations (PIPELINING / 8BITMIME / SMTPUTF8 / SIZE, '
-       'EHLO 500 -> HELO, queue verdicts, two messages per connection), wire bytes tapped and compared with the model line by line and as whole transactions (hopBytes, with the parts the relay client handed to Client.send_data), End to end over HTTP (http_hop_delivers, Model/HttpHop.lean): for every EHLO string, sender (null sender included), list of non-empty recipients and message data, the request HttpRelayClient writes (Content-Length = str(len), X-Ehlo, base64 sender, one base64 X-Envelope-Recipient each), with equally named headers joined by a comma as WSGI does, is read by WsgiEdge._get_envelope as exactly that EHLO string, sender, recipients in order and data cut at the announced length (int(str(n)) = n included: parse_decimal). Tied to the code request by request: the environ the real pywsgi server hands the real WsgiEdge and the envelope the edge builds are compared with the model\'s environ and edgeEnvelope; plus unit differentials.',
+       'EHLO 500 -> HELO, queue verdicts, two messages per connection), wire bytes tapped and compared with the model line by line and as whole transactions (hopBytes, with the parts the relay client handed to Client.send_data), End to end over HTTP (http_hop_delivers, Model/HttpHop.lean): for every EHLO string, sender (null sender included), list of non-empty recipients and message data, the request HttpRelayClient writes (Content-Length = str(len), X-Ehlo, base64 sender, one base64 X-Envelope-Recipient each), with equally named headers joined by a comma as WSGI does, is read by WsgiEdge._get_envelope as exactly that EHLO string, sender, recipients in order and data cut at the announced length (int(str(n)) = n included: parse_decimal). Tied to the code request by request: the environ the real pywsgi server hands the real WsgiEdge and the envelope the edge builds are compared with the model\'s environ and edgeEnvelope; plus unit differentials (extension lines with empty parameters and in the server\'s letter case, base64, header splitting, X-Smtp-Reply) and requests the relay would not write against the real WsgiEdge called as a WSGI application (no recipient header, no X-Ehlo header, Content-Length shorter than the body).',
   ref='6/C06', technique='Lean 4 proof (round-trip theorems by induction over the scanners; base64 by arithmetic) + differential / end-to-end correspondence vs real relay clients and edges',
   note='Partial: per-leg theorems composed informally; TLS, email package and lenient base64 decoding outside the model.'),
  'C14': dict(
@@ -254,7 +254,7 @@ CLAIMED = {
        'The table is what the correspondence validates, in two ways: it is extracted from the current source on every run (harness/scopes.py walks the AST of server.py, edge/smtp.py, relay/smtp/client.py, lmtpclient.py, pipe.py and http.py and reports, for every call that can block on the peer, the timeout attribute of the innermost enclosing `with Timeout(...)` / start-cancel scope, or `unscoped`) and must equal the model\'s table (`timeouts table`; all_stages_listed shows it lists every stage); and by wall-clock runs: real SmtpEdge sessions (incl. real TLS) against a client stalling / trickling at 16 points, '
        'real StaticSmtpRelay / StaticLmtpRelay attempts against a peer stalling at 15 stages x PIPELINING x SMTP/LMTP, PipeRelay and HttpRelay '
        'against a program / server that never answers, with 80 / 200 ms timeouts: each run must end where the model says, not before 0.7x the '
-       'limit, with a 421 / a transient failure, and never be blocked at the 3 s watchdog.',
+       'limit, with a 421 / a transient failure, and never be blocked at the 3 s watchdog; steady_but_slow_is_cut (pieces each within the limit, the whole over it: cut at the limit) is run as such: a complete command / message in pieces a third / a quarter of the timeout apart must be cut, not answered.',
   ref='6/C14', technique='Lean 4 proof (arithmetic of timeout scopes over arbitrary peer behaviours; case analysis of the scope table) + wall-clock correspondence vs real SmtpEdge / relay clients against stalling peers',
   note='Partial: real time and gevent timers are outside the model.'),
 }
